@@ -29,12 +29,17 @@ def suites(ctx):
 def run_suite(exe, args):
     """h_syntax args | dbus-model ; returns parsed output"""
     env = dict(os.environ); env.update(build.ASAN_ENV)
-    h = subprocess.Popen([exe] + args, stdout=subprocess.PIPE, stderr=subprocess.PIPE, env=env)
-    d = subprocess.Popen([DRIVER], stdin=h.stdout, stdout=subprocess.PIPE, text=True)
-    h.stdout.close()
-    out, _ = d.communicate()
-    herr = h.stderr.read().decode(errors="replace")
-    hrc = h.wait()
+    import tempfile
+    with tempfile.TemporaryFile() as errf:          # (a pipe would fill up and block the harness when it has much to complain about)
+        h = subprocess.Popen([exe] + args, stdout=subprocess.PIPE, stderr=errf, env=env)
+        d = subprocess.Popen([DRIVER], stdin=h.stdout, stdout=subprocess.PIPE, text=True)
+        h.stdout.close()
+        out, _ = d.communicate()
+        hrc = h.wait()
+        errf.seek(0)
+        herr = errf.read().decode(errors="replace")
+    if len(herr) > 4000000:
+        herr = herr[:2000000] + herr[-2000000:]
     res = {"mismatch": [], "known": [], "samples": [], "done": None, "harness_rc": hrc, "harness_err": herr[-2000:],
            "inconsistent": [l for l in herr.splitlines() if l.startswith("INCONSISTENT")]}
     for line in out.splitlines():
@@ -97,11 +102,11 @@ def run(ctx):
         dist[name] = {"cases": n, "accepted_by_some_grammar": int(r["done"].get("nontrivial", 0)) if r["done"] else 0,
                       "mismatches": len(r["mismatch"]), "known_class_hits": len(r["known"])}
         samples += [name + ": " + s for s in r["samples"][:2]]
-        for line in r["inconsistent"]:
+        for line in r["inconsistent"][:8]:
             ok = False
             ctx.violate("public and internal validators disagree: " + line, {"suite": name, "line": line,
                         "replay_cmd": ".cache/bin/h_syntax one ..."}, failing_input=True)
-        for line in r["mismatch"]:
+        for line in r["mismatch"][:12]:
             ok = False
             c = parse_case(line)
             vs_spec, vs_model = classify(c)
@@ -123,6 +128,8 @@ def run(ctx):
                     ok = False
                     ctx.violate("validator differs from the specification for %s on %s and no known finding covers it" % (b, c["hex"]),
                                 {"suite": name, "case": c}, True)
+        if r["inconsistent"] or r["mismatch"]:
+            ok = False
         ctx.oblige("correspondence K:syntax/" + name, "correspondence", ok, detail)
     for cls, (n, hx) in sorted(known_counts.items()):
         e = known_classes[cls]
